@@ -470,3 +470,5 @@ ob("native_display_and_record", "chess::verif_chess::fen::native_display_and_rec
    "TEST (native, concrete): Display (Hash/Fen/PGN lines, diagram rank 8 first with every glyph) and get_pgn vs the specified record on an 18-ply game with captures, e.p., under-promotion, both castlings",
    ["Display for Game", "Game::get_pgn (whole functions, concrete inputs)"], backend="native", complete=False, counts_as_proof=False,
    bounded_note="concrete native run of the glue; not a proof")
+ob("get_moves_prologue", "chess::verif_chess::inst::get_moves_prologue", ["C01"],
+   "slice verif_get_moves_prologue: output list emptied; generation goes on iff the mover's cached king square holds a king", ["Game::get_moves (prologue)", "Game::king_exists"], timeout=300)
